@@ -12,7 +12,7 @@ from .. import boot, core, api, proggen, tracer
 ID = "C05"
 LEVEL = "exploration"
 BUDGET = {"quick": 160, "thorough": 1700}
-EXAMPLES = {"quick": 12, "thorough": 300}
+EXAMPLES = {"quick": 20, "thorough": 300}
 PER_PROGRAM = 6
 RULE = ("cases = executable programs from vlib.proggen (single- and multi-module, every probe value printed at the end) "
         "x 6 identifier occurrences per program drawn from all identifier tokens with lexical meaning (variables, "
